@@ -166,27 +166,52 @@ def call(entry, payload, ver, allow_custom):
         return None, exc
     if entry == "parse_observable":
         return core.guarded(stix2.parse_observable, payload, allow_custom=allow_custom, version=ver, _valid_refs={"*": "*"} if ver == "2.0" else None)
-    if entry == "fs-sink":
+    if entry.startswith(("fs-sink", "memory-")):
+        import os
         import shutil
         import tempfile
+        route, _, form = entry.partition(":")
+        form = form or "dict"
+        b = {"type": "bundle", "id": "bundle--" + UUID, "objects": [payload]}
+        if ver == "2.0":
+            b["spec_version"] = "2.0"
+        data = {"dict": payload, "json": json.dumps(payload), "list": [payload], "bundle-dict": b, "bundle-json": json.dumps(b),
+                "list-of-bundle": [b]}[form if form in ("dict", "json", "list", "bundle-dict", "bundle-json", "list-of-bundle") else "bundle-dict"]
         tmp = tempfile.mkdtemp(prefix="c04-")
         try:
-            sink = stix2.FileSystemSink(tmp, allow_custom=allow_custom)
-            _, exc = core.guarded(sink.add, payload)
+            if route == "fs-sink":
+                sink = stix2.FileSystemSink(tmp, allow_custom=allow_custom)
+                _, exc = core.guarded(sink.add, data)
+                if exc is not None:
+                    return None, exc
+                src = stix2.FileSystemSource(tmp, allow_custom=True)
+                got, exc2 = core.guarded(src.query)
+                return ((got[0] if got else None), None) if exc2 is None else (None, None)
+            if route == "memory-store":
+                store = stix2.MemoryStore(allow_custom=allow_custom)
+                _, exc = core.guarded(store.add, data)
+            elif route == "memory-sink":
+                store = stix2.MemorySink(allow_custom=allow_custom)
+                _, exc = core.guarded(store.add, data)
+            elif route == "memory-store-ctor":
+                store, exc = core.guarded(stix2.MemoryStore, data, allow_custom=allow_custom)
+            elif route == "memory-source-ctor":
+                store, exc = core.guarded(stix2.MemorySource, data, allow_custom=allow_custom)
+            elif route == "memory-load-file":
+                fn = os.path.join(tmp, "in.json")
+                with open(fn, "w") as f:
+                    json.dump(b, f)
+                store = stix2.MemoryStore(allow_custom=allow_custom)
+                _, exc = core.guarded(store.load_from_file, fn)
+            else:
+                raise AssertionError(entry)
             if exc is not None:
                 return None, exc
-            src = stix2.FileSystemSource(tmp, allow_custom=True)
-            got, exc2 = core.guarded(src.query)
-            return ((got[0] if got else None), None) if exc2 is None else (None, None)
+            got = list(store._data.values()) if route == "memory-sink" else store.query()
+            got = [g.latest_version if hasattr(g, "latest_version") else g for g in got]
+            return (got[0] if got else None), None
         finally:
             shutil.rmtree(tmp, ignore_errors=True)
-    if entry == "memory-store":
-        store = stix2.MemoryStore(allow_custom=allow_custom)
-        _, exc = core.guarded(store.add, payload)
-        if exc is not None:
-            return None, exc
-        got = store.query()
-        return (got[0] if got else None), None
     raise AssertionError(entry)
 
 
@@ -222,7 +247,7 @@ def check_case(case):
                 fails.append(("control-flagged-custom:%s" % kind, "has_custom is True for non-custom content"))
             return fails
         if exc is None:
-            fails.append(("custom-admitted-strict:%s:%s" % (site, "store" if entry in ("memory-store", "fs-sink") else "parse/construct"),
+            fails.append(("custom-admitted-strict:%s:%s" % (site, "store" if entry.startswith(("memory-", "fs-sink")) else "parse/construct"),
                           "%s(allow_custom=False) returned %s for custom content (%s): %s" % (entry, type(res).__name__, kind, core.short(payload, 500))))
         return fails
     # permissive
@@ -256,7 +281,10 @@ def entries_for(doc, ver):
     if t not in m.observables:
         e.append("bundle-prebuilt")
     if "id" in doc:
-        e.append("fs-sink")
+        # every documented input form of the stores (the switch is applied where content is parsed)
+        e.extend(["fs-sink", "memory-store:bundle-dict", "memory-store:json", "memory-store:list", "memory-sink:bundle-json", "memory-store-ctor:bundle-dict",
+                  "memory-store-ctor:list", "memory-source-ctor:bundle-json", "memory-source-ctor:dict", "memory-load-file", "fs-sink:bundle-dict",
+                  "fs-sink:bundle-json", "fs-sink:list", "fs-sink:json", "memory-store:list-of-bundle"])
     if t in m.observables and ver == "2.1":
         e.append("parse_observable")
     if t not in m.observables:
@@ -270,7 +298,9 @@ def run(ctx):
                 "custom property with and without x_ prefix, custom_properties content key, custom property in each embedded object / "
                 "registered extension / container member, unregistered extension, custom and foreign-version hash names, references to "
                 "unregistered types in category-typed slots, unregistered observable member, unregistered marking type) x allow_custom "
-                "False/True x entry point (parse dict/text, constructor, Bundle(), bundle dict, parse_observable, MemoryStore.add); plus "
+                "False/True x entry point (parse dict/text, constructor, Bundle(), bundle dict, parse_observable, and the stores in every documented "
+                "input form: MemoryStore/MemorySink.add and MemoryStore/MemorySource(stix_data) with dict, JSON text, list, bundle dict, bundle text, "
+                "list of bundles, load_from_file, FileSystemSink.add with the same forms); plus "
                 "controls (no injection, out-of-vocabulary open-vocab value, unregistered extension-definition extension). Non-trivial = "
                 "injection below the top level or a control; distinct = (type, version, site kind, entry, switch).")
     ctx.assumptions = ["a pre-built object instance handed to a store is passed through untouched (documented); only parse/construct routes are asserted",
